@@ -69,6 +69,7 @@ type simTask struct {
 	started   bool
 	body      func()
 	midShared bool // inside an operation on the shared value
+	cheap     bool // the running operation asked for the per-yield invariants to be skipped
 	prio      int
 	quantum   int
 }
@@ -204,7 +205,7 @@ func (s *sched) yield(site int) {
 		return
 	}
 	s.step++
-	if s.invariant != nil && !s.stop {
+	if s.invariant != nil && !s.stop && !t.cheap {
 		if v := s.invariant(site); v != nil {
 			s.viol = v
 			s.stop = true
